@@ -326,8 +326,8 @@ Theorem iter_equiv s dims st1 st2 k :
   related s (iter_1 (S k) dims st1) (iter_2 (S k) dims st2) /\ den_scaled s (iter_1 (S k) dims st1) (iter_2 (S k) dims st2).
 Proof.
   intros Hrel HX Hne.
-  assert (G : forall k, iter_hyps s k dims st1 st2 -> related s (iter_1 k dims st1) (iter_2 k dims st2)).
-  { induction k as [|k0 IHk]; intros Hh; cbn [als_iter]; auto.
+  assert (G : forall q, iter_hyps s q dims st1 st2 -> related s (iter_1 q dims st1) (iter_2 q dims st2)).
+  { intros q. induction q as [|k0 IHk]; intros Hh; cbn [als_iter]; auto.
     destruct Hh as [H1 H2]. exact (proj1 (sweep_equiv s k0 dims _ _ (IHk H1) HX H2 Hne)). }
   intros [H1 H2]. cbn [als_iter]. apply sweep_equiv; auto.
 Qed.
